@@ -141,7 +141,20 @@ def concretize(run, model, seed_env=None):
             env[v] = r.eval({u: val(u) for u in r.vars()})
     return env
 
-def encoder_selftest(run, pr, roots, rebuild, model, timeout_s):
+def native_outputs(nat, run_c, env):
+    """run the natively compiled wrapper on the concrete inputs of run_c. nat = (config, fn, out_layout, profile)"""
+    from vp import native
+    cfg, fn, out_layout = nat[0], nat[1], nat[2]
+    profile = nat[3] if len(nat) > 3 else "release"
+    args = []
+    for name, (layout, limbs, p) in run_c.inputs.items():
+        args.append(native.limbs_bytes([x.cval() for x in limbs], layout.cell))
+    r = native.run(cfg, [(fn, args)], profile=profile)[0]
+    if r is None: return None, "wrapper unknown to the native runner"
+    if isinstance(r, tuple): return None, "native " + r[0] + " " + r[1]
+    return native.bytes_limbs(r[:out_layout.size()], out_layout.cell), None
+
+def encoder_selftest(run, pr, roots, rebuild, model, timeout_s, nat=None):
     """Translator validation (DESIGN 5.2) without the solver: re-run the harness symbolically with a concrete
     *shadow* value for every variable (inputs sampled, digits computed from their definitions) and check that
     the emitted constraint system admits that execution - every variable within its declared bounds, every
@@ -187,7 +200,13 @@ def encoder_selftest(run, pr, roots, rebuild, model, timeout_s):
         if bad is None:
             outs_s = [c2.resolve(x).eval(sh) for x in osym]
             if outs_s != outs_c: bad = "symbolic outputs %s != concrete-mode outputs %s" % (outs_s[:4], outs_c[:4])
-        res["vectors"].append(dict(vector=tag, variables_checked=len(c2.bounds), side_conditions=len(c2.side), result=bad or "admitted, outputs agree"))
+        nres = None
+        if bad is None and nat is not None:
+            no, err = native_outputs(nat, rc, env)
+            if no is None: nres = err
+            elif no != outs_c: bad = "llsym concrete outputs %s != native (%s) outputs %s" % (outs_c[:4], nat[0], no[:4])
+            else: nres = "native outputs agree"
+        res["vectors"].append(dict(vector=tag, variables_checked=len(c2.bounds), side_conditions=len(c2.side), native=nres, result=bad or "admitted, outputs agree"))
         if bad: res["ok"] = False; res["why"] = "vector %s: %s" % (tag, bad)
     return res
 
@@ -203,7 +222,7 @@ def _eval_cond_env(c, env):
     raise KeyError(k)
 
 def discharge(rep, run, name, goals, roots, config, fn, bounds_note, timeout_s=60, solvers_also=(), replay=None,
-              lemma_timeout=10, assumptions=(), selftest=None):
+              lemma_timeout=10, assumptions=(), selftest=None, nat=None):
     """goals: list of (goal_name, violated_cond).  Runs auto zero-lemmas, vacuity witness, each goal.
     replay: callable(model_env) -> (reproduced: bool, detail) for sat models (concrete re-execution)."""
     t0 = time.time()
@@ -225,7 +244,7 @@ def discharge(rep, run, name, goals, roots, config, fn, bounds_note, timeout_s=6
         # encoder self-test (translator validation, DESIGN 5.2): the constraint system must admit the concrete
         # execution of sampled input vectors and force exactly the concretely computed outputs
         if selftest is not None and status == "ok":
-            st = encoder_selftest(run, pr, roots, selftest, vac[1], timeout_s)
+            st = encoder_selftest(run, pr, roots, selftest, vac[1], timeout_s, nat=nat)
             rec["encoder_selftest"] = st
             if not st["ok"]: status = "inconclusive"; rec["why"] = "encoder self-test failed: " + st.get("why", "")
         for gname, viol in goals:
@@ -239,6 +258,15 @@ def discharge(rep, run, name, goals, roots, config, fn, bounds_note, timeout_s=6
                         ok, detail = replay(env, gname)
                     except lsym.PanicReached as e:
                         ok, detail = True, dict(llsym_concrete="panic reached: " + str(e))
+                    if ok and nat is not None and selftest is not None and isinstance(detail, dict) and "llsym_concrete_outputs" in detail:
+                        try:
+                            rc2, _, _ = selftest(concrete=env)
+                            no, err = native_outputs(nat, rc2, env)
+                            detail["native_outputs"] = no if no is not None else err
+                            if no is not None and no != detail["llsym_concrete_outputs"]:
+                                ok = False; detail["native_disagrees_with_interpreter"] = True
+                        except Exception as e:
+                            detail["native_error"] = str(e)[:200]
                     g["replay"] = detail
                     if ok: status = "violation"; g["reproduced"] = True
                     else:
